@@ -6,7 +6,7 @@
     specification rejects. *)
 From Coq Require Import ZArith List Bool String.
 From Low Require Import Lib.Bits Lib.BitSeq Lib.Lex Lib.Bytes Lib.Val
-  Spec.Bmtree Spec.IndexSpec Model.BmtreePath Model.BmtreeIndex.
+  Spec.Bmtree Spec.IndexSpec Spec.ContractSpec Model.BmtreePath Model.BmtreeIndex.
 Import ListNotations.
 Open Scope string_scope.
 Open Scope Z_scope.
@@ -65,11 +65,55 @@ Definition op_strict (name : string) (dbg : bool) : opdef :=
            | _, _ => VBad end
        | _ => VBad end) |}.
 
+(** widening: RAW arguments (any int32 level mask, any uint64 word) against the [-tags debug] build
+    only.  The contracts must fire exactly outside the domain (Spec/ContractSpec.v); inside it the
+    result is the rank.  Args [T, w]. *)
+Definition c03_raw_dom (T w : Z) : bool :=
+  (- 2 ^ 31 <=? T) && (T <? 2 ^ 31) && (0 <=? w) && (w <? 2 ^ 64).
+
+Definition pairZ_eqb (a b : Z * Z) : bool := (fst a =? fst b) && (snd a =? snd b).
+
+Definition as_pairZ (v : val) : option (option (Z * Z)) :=
+  match v with
+  | VPanic => Some None
+  | VL [VZ a; VZ b] => Some (Some (a, b))
+  | _ => None
+  end.
+Definition as_optZ (v : val) : option (option Z) :=
+  match v with VPanic => Some None | VZ a => Some (Some a) | _ => None end.
+
+Definition op_raw_loose (name : string) : opdef :=
+  {| op_name := name;
+     op_run := fun a => match a with
+       | [VZ T; VZ w] =>
+           if c03_raw_dom T w then
+             match PathToIndexLoose_debug T w with Some p => vpairZ p | None => VPanic end
+           else VBad
+       | _ => VBad end;
+     op_spec := fun a obs => match a, as_pairZ obs with
+       | [VZ T; VZ w], Some o => expect_accepts pairZ_eqb (raw_loose_expect T w) o
+       | _, _ => false end |}.
+
+Definition op_raw_strict (name : string) : opdef :=
+  {| op_name := name;
+     op_run := fun a => match a with
+       | [VZ T; VZ w] =>
+           if c03_raw_dom T w then
+             match PathToIndex_debug T w with Some i => VZ i | None => VPanic end
+           else VBad
+       | _ => VBad end;
+     op_spec := fun a obs => match a, as_optZ obs with
+       | [VZ T; VZ w], Some o => expect_accepts Z.eqb (raw_strict_expect T w) o
+       | _, _ => false end |}.
+
 Definition ops_C03 : list opdef := [
   (* any node: (index, has) *)
   op_loose "bmtree.PathToIndexLoose" false;
   op_loose "bmtree.PathToIndexLoose/debug" true;
   (* a node on a stored level: index *)
   op_strict "bmtree.PathToIndex" false;
-  op_strict "bmtree.PathToIndex/debug" true
+  op_strict "bmtree.PathToIndex/debug" true;
+  (* raw arguments, debug build: panic exactly outside the domain *)
+  op_raw_loose "bmtree.PathToIndexLoose/debug-raw";
+  op_raw_strict "bmtree.PathToIndex/debug-raw"
 ].
